@@ -7,11 +7,11 @@ static const char *NAMES[14] = {"A", "B", "AA", "AB", "BA", "BB", "AAA", "AAB", 
 static int run_lines_for_table(int k, int lower)
 {
         /* every typed name of length 1..4 over {A,B} in the four suffix forms */
-        static const char *SUF[4] = {"", "?", "=1", "=?"};
+        static const char *SUF[5] = {"", "?", "=1", "=?", "="};
         uint8_t line[32];
         for (int len = 1; len <= 4; len++)
                 for (int bits = 0; bits < (1 << len); bits++)
-                        for (int s = 0; s < 4; s++) {
+                        for (int s = 0; s < 5; s++) {
                                 int n = 0;
                                 line[n++] = 'A'; line[n++] = 'T';
                                 for (int i = 0; i < len; i++) line[n++] = (uint8_t)(((bits >> i) & 1 ? 'B' : 'A') + (lower ? 32 : 0));
